@@ -880,3 +880,99 @@ Section MfndCorollaries.
     rewrite (M s u v0 v L0 Lu Su) in Hlt. discriminate.
   Qed.
 End MfndCorollaries.
+
+(* ================================================================== prune_above_filtration *)
+Lemma prefixes_self : forall s, s <> [] -> In s (prefixes s).
+Proof.
+  induction s as [|x t IH]; intros N; [congruence|]. cbn [prefixes]. destruct t as [|y t'].
+  - left. reflexivity.
+  - right. apply in_map. apply IH. discriminate.
+Qed.
+
+Lemma prefixes_subseq : forall s p, In p (prefixes s) -> subseq p s /\ p <> [].
+Proof.
+  induction s as [|x t IH]; intros p H; cbn [prefixes] in H; [destruct H|].
+  destruct H as [H|H].
+  - subst. split; [apply sub_cons; apply subseq_nil_l | discriminate].
+  - apply in_map_iff in H. destruct H as (q & E & I). subst. split; [apply sub_cons; apply IH; exact I | discriminate].
+Qed.
+
+Section Prune.
+  Variable V : Type.
+  Variable vlt : V -> V -> bool.
+  Variable vinf : V.
+  Hypothesis SW : StrictWeak vlt.
+  Hypothesis vinf_top : forall v, vlt vinf v = false.
+
+  (* for a filtered simplicial complex with a monotone filtration, pruning keeps exactly the sublevel set *)
+  Theorem prune_sublevel : forall (K : cplx V) f, wf K -> closed K -> monotone vlt K ->
+    forall s v, In (s, v) (fst (prune_above_filtration vlt vinf K f)) <-> In (s, v) K /\ vlt f v = false.
+  Proof.
+    intros K f WF CL M s v. unfold prune_above_filtration.
+    destruct (veq vlt f vinf) eqn:EI; cbn [fst].
+    - apply (veq_true V vlt) in EI. destruct EI as [E1 E2]. split; [|tauto]. intros H. split; [exact H|].
+      eapply (sw_negtrans vlt SW); [exact E1 | apply vinf_top].
+    - rewrite filter_In. cbn [fst]. split; intros [H1 H2]; (split; [exact H1|]).
+      + apply negb_true_iff in H2. destruct (vlt f v) eqn:E; [|reflexivity]. exfalso.
+        assert (X : pruned vlt K f s = true).
+        { unfold pruned. apply existsb_exists. exists s. split.
+          - apply prefixes_self. apply WF. apply in_map_iff. exists (s, v). auto.
+          - rewrite (in_lookup K s v); [exact E | apply WF | exact H1]. }
+        congruence.
+      + apply negb_true_iff. destruct (pruned vlt K f s) eqn:E; [|reflexivity]. exfalso.
+        unfold pruned in E. apply existsb_exists in E. destruct E as (p & Ip & Hp).
+        destruct (lookup K p) as [w|] eqn:Lp; [|discriminate].
+        apply prefixes_subseq in Ip. destruct Ip as [Sp Np].
+        assert (Mw : vlt v w = false) by (eapply M; [apply in_lookup; [apply WF | exact H1] | exact Lp | exact Sp]).
+        rewrite (vlt_lt_le V vlt SW f w v Hp Mw) in H2. discriminate.
+  Qed.
+
+  Lemma filter_length_le' : forall (A : Type) (p : A -> bool) (l : list A), (length (filter p l) <= length l)%nat.
+  Proof. intros A p. induction l as [|a l IH]; cbn [filter]; [apply Nat.le_refl|]. destruct (p a); cbn [length]; lia. Qed.
+
+  Lemma filter_length_eq : forall (A : Type) (p : A -> bool) (l : list A), length (filter p l) = length l -> filter p l = l.
+  Proof.
+    intros A p. induction l as [|a l IH]; cbn [filter]; [reflexivity|]. destruct (p a); cbn [length]; intros H.
+    - f_equal. apply IH. lia.
+    - exfalso. pose proof (filter_length_le' A p l). lia.
+  Qed.
+
+  Lemma filter_neq_exists : forall (A : Type) (p : A -> bool) (l : list A), filter p l <> l -> exists a, In a l /\ p a = false.
+  Proof.
+    intros A p. induction l as [|a l IH]; intros NE; [exfalso; apply NE; reflexivity|]. cbn [filter] in NE. destruct (p a) eqn:Ea.
+    - destruct IH as (b & Ib & Hb); [intros X; apply NE; rewrite X; reflexivity|]. exists b. split; [right; exact Ib | exact Hb].
+    - exists a. split; [left; reflexivity | exact Ea].
+  Qed.
+
+  (* the returned flag is true exactly when a simplex was removed *)
+  Theorem prune_flag : forall (K : cplx V) f,
+    snd (prune_above_filtration vlt vinf K f) = false <-> fst (prune_above_filtration vlt vinf K f) = K.
+  Proof.
+    intros K f. unfold prune_above_filtration. destruct (veq vlt f vinf); cbn [fst snd]; [tauto|].
+    rewrite negb_false_iff, Nat.eqb_eq. split; [apply filter_length_eq | intros E; rewrite E; reflexivity].
+  Qed.
+
+  Theorem prune_flag_sublevel : forall (K : cplx V) f, wf K -> closed K -> monotone vlt K ->
+    (snd (prune_above_filtration vlt vinf K f) = true <-> exists s v, In (s, v) K /\ vlt f v = true).
+  Proof.
+    intros K f WF CL M. split.
+    - intros H. destruct (prune_above_filtration vlt vinf K f) as [K' b] eqn:E. cbn [snd] in H. subst b.
+      assert (NE : K' <> K). { intros X. pose proof (prune_flag K f) as P. rewrite E in P. cbn [fst snd] in P. apply P in X. discriminate. }
+      (* some element of K is not in K' *)
+      assert (Sub : forall a, In a K' -> In a K).
+      { intros [s v] Ia. pose proof (prune_sublevel K f WF CL M s v) as P. rewrite E in P. cbn [fst] in P. apply P. exact Ia. }
+      assert (FI : K' = filter (fun p => negb (pruned vlt K f (fst p))) K \/ K' = K).
+      { unfold prune_above_filtration in E. destruct (veq vlt f vinf); inversion E; auto. }
+      destruct FI as [FI|FI]; [|contradiction].
+      assert (EX : exists a, In a K /\ (fun p : simplex * V => negb (pruned vlt K f (fst p))) a = false).
+      { apply filter_neq_exists. rewrite <- FI. exact NE. }
+      cbn beta in EX.
+      destruct EX as ([s v] & Ia & Ha). exists s, v. split; [exact Ia|].
+      destruct (vlt f v) eqn:Ef; [reflexivity|]. exfalso.
+      assert (X : In (s, v) K') by (pose proof (prune_sublevel K f WF CL M s v) as P; rewrite E in P; cbn [fst] in P; apply P; auto).
+      rewrite FI in X. apply filter_In in X. destruct X as [_ X]. congruence.
+    - intros (s & v & Ia & Hlt). destruct (snd (prune_above_filtration vlt vinf K f)) eqn:E; [reflexivity|]. exfalso.
+      apply prune_flag in E. pose proof (prune_sublevel K f WF CL M s v) as P. rewrite E in P.
+      destruct P as [P _]. destruct (P Ia) as [_ X]. congruence.
+  Qed.
+End Prune.
